@@ -305,7 +305,14 @@ func (p *c11) Run(w *lib.Worker, idx int, r *lib.Rand) lib.Case {
 		panicAt := -1
 		ll := mkLL()
 		for i, op := range wl {
-			o := op.Run(true)
+			o, returned := runWithin(c11CallBudget, func() sut.Outcome { return op.Run(true) })
+			if !returned {
+				// k-1 recovered panics happened in this process before (one per earlier k): a workload call which
+				// blocks now is waiting for something one of those aborted validations left held
+				c.Viol = &lib.Violation{What: fmt.Sprintf("after recovered panics (format checker invocations 1..%d of %d) workload call %d (%s) did not return within %v", k-1, K, i, op.Kind, c11CallBudget),
+					Detail: map[string]any{"call": op.Render(), "k": k, "K": K}}
+				return c
+			}
 			if strings.Contains(o.Panic, "VERIF injected panic") {
 				panicAt = i
 				break
